@@ -100,6 +100,12 @@ func (r *RNN) Apply(inputs []tensor.Tensor) ([]tensor.Tensor, error) {
 	// Reshape the hidden tensor without the bidirectional dimension, as
 	// we do not support bidirectional RNN yet. This is the dimension at
 	// index 0.
+	// Work on a copy: the initial state is a caller tensor or a model weight and must keep its shape.
+	Ht, ok := Ht.Clone().(tensor.Tensor)
+	if !ok {
+		return nil, ops.ErrTypeAssert("tensor.Tensor", Ht)
+	}
+
 	if err = Ht.Reshape(Ht.Shape().Clone()[1:]...); err != nil {
 		return nil, err
 	}
